@@ -92,6 +92,8 @@ def job(j: dict) -> dict:
         copies.append(t.split("\n"))
     r = docex.render(lang, copies, e, j["salt"])
     main = f"src/m_example.{ext}"
+    if e["sibling"] == "shadowHere":
+        r["text"] = r["text"] + "\n".join(docex.shadow_here(lang, "\n".join(body), doc, j["salt"])) + "\n"
     files = {main: r["text"]}
     order = [main]
     if e["sibling"] == "shadow":
